@@ -513,6 +513,13 @@ func ApplyOverlapToChunks(chunks []*Chunk, config OverlapConfig) []*ChunkWithOve
 	generator := NewOverlapGeneratorWithConfig(config)
 	result := make([]*ChunkWithOverlap, len(chunks))
 
+	// Overlap is taken from each chunk's own content, not from a text that
+	// already had its predecessor's overlap prepended in this loop.
+	originalTexts := make([]string, len(chunks))
+	for i, chunk := range chunks {
+		originalTexts[i] = chunk.Text
+	}
+
 	for i, chunk := range chunks {
 		result[i] = &ChunkWithOverlap{
 			Chunk: chunk,
@@ -520,8 +527,7 @@ func ApplyOverlapToChunks(chunks []*Chunk, config OverlapConfig) []*ChunkWithOve
 
 		if i > 0 && config.Strategy != OverlapNone {
 			// Generate overlap from previous chunk
-			prevChunk := chunks[i-1]
-			overlap := generator.GenerateOverlap(prevChunk.Text)
+			overlap := generator.GenerateOverlap(originalTexts[i-1])
 
 			if overlap.Text != "" {
 				result[i].OverlapPrefix = overlap.Text
